@@ -215,9 +215,18 @@ func genPack(w *world, ch string, kinds []string) *rapid.Generator[*packContent]
 					DbID: dbID, CollectionID: collID, PartitionID: partID, SegmentID: rapid.Int64Range(1, 1<<50).Draw(t, "segid"),
 					Timestamps: tss, RowIDs: rapid.SliceOfN(rapid.Int64(), rows, rows).Draw(t, "rowids"), NumRows: uint64(rows),
 					Version: msgpb.InsertDataVersion_ColumnBased}
-				nf := rapid.IntRange(1, 3).Draw(t, "nfields")
-				for f := 0; f < nf; f++ {
-					ir.FieldsData = append(ir.FieldsData, genFieldData(t, rows, f))
+				if rapid.IntRange(0, 3).Draw(t, "rowbased") == 0 {
+					// legacy row-based insert: the rows travel in RowData, num_rows is not set (InsertMsg.NRows counts RowData)
+					ir.Version = msgpb.InsertDataVersion_RowBased
+					ir.NumRows = 0
+					for r := 0; r < rows; r++ {
+						ir.RowData = append(ir.RowData, &commonpb.Blob{Value: rapid.SliceOfN(rapid.Byte(), 1, 24).Draw(t, "blob")})
+					}
+				} else {
+					nf := rapid.IntRange(1, 3).Draw(t, "nfields")
+					for f := 0; f < nf; f++ {
+						ir.FieldsData = append(ir.FieldsData, genFieldData(t, rows, f))
+					}
 				}
 				req = ir
 			case "delete":
